@@ -99,9 +99,11 @@ class PinchProblem:
         dict
             The loaded input structure.
         """
-        # A newly loaded problem invalidates results cached for the previous one
+        # A newly loaded problem invalidates results cached for the previous one,
+        # and does not inherit the project name derived from a previously loaded file
         self._results = None
         self._master_zone = None
+        self._project_name = type(self)._project_name
 
         if isinstance(source, TargetInput):
             self._problem_data = source
